@@ -111,7 +111,7 @@ func stringGetOwnProperty(obj *object, name string) *property {
 	// TODO Test a string of length >= +int32 + 1?
 	if index := stringToArrayIndex(name); index >= 0 {
 		if chr := stringAt(obj.stringValue(), int(index)); chr != stringAtOutOfRange {
-			return &property{stringValue(string(chr)), 0}
+			return &property{stringValue(string(chr)), modeEnumerateMask & modeOnMask}
 		}
 	}
 	return nil
